@@ -47,3 +47,8 @@ package guard
 //@   property C15 C09
 //@   modifies *
 //@   csensures[only_holder] err == nil ==> len(g.waitForUnlock) > 0 && g.waitForUnlock[0] == guardID
+
+// Interface-level contracts (assumed at call sites through the Guard interface).
+//@ trusted func (Guard).CanExecute(g, id, isBodyFunction) (err)
+//@ trusted func (Guard).StartTreasureGuard(g, waiting, bodyAuthID) (id)
+//@ trusted func (Guard).ReleaseTreasureGuard(g, id)
